@@ -342,7 +342,8 @@ def recover(inp, outp, verbose=0, partial=False, force=False, pack=None):
 
         nrec = 0
         try:
-            for r in txn:
+            records = iter(txn)
+            for r in records:
                 if verbose > 1:
                     if r.data is None:
                         l_ = "bp"
@@ -353,6 +354,9 @@ def recover(inp, outp, verbose=0, partial=False, force=False, pack=None):
                 ofs.restore(r.oid, r.tid, r.data, '', r.data_txn,
                             txn)
                 nrec += 1
+            if records._pos != txn._tend:
+                # The record iterator stops quietly at a bad data record.
+                error("bad data record at %s", records._pos)
         except (KeyboardInterrupt, SystemExit):
             raise
         except Exception as err:
